@@ -1,4 +1,5 @@
 import HexVerif.Xcmp.Compile
+import HexVerif.Lemmas.XcmpPeepLabels
 /-!
   The code the expression and statement generators emit for a procedure BODY contains no
   procedure-level directive: no PROLOGUE / EPILOGUE / SP_VALUE marker and no FUNC / PROC label -
@@ -424,5 +425,31 @@ theorem stages_marks (P : X.Program) (st : Stages) (h : stages P = .ok st) :
   apply List.map_congr_left
   intro p _
   rfl
+
+/-- Lowering a plain body yields plain labels only: no FUNC / PROC label comes out of a procedure body. -/
+theorem lowerCode_plain_labels (out : CGOut) : ∀ (c : Code), Plain c →
+    ∀ l ∈ labelsOf (lowerCode out c), l.1 = LabelKind.plain
+  | [], _, l, hl => by simp [lowerCode, labelsOf] at hl
+  | d :: t, h, l, hl => by
+    have hd := h d (List.mem_cons_self ..)
+    have ht : Plain t := fun x hx => h x (List.mem_cons_of_mem _ hx)
+    have ih := lowerCode_plain_labels out t ht
+    unfold lowerCode at hl
+    cases d with
+    | dir dd =>
+      cases dd with
+      | label k n =>
+        simp only [lowerOne, List.singleton_append, labelsOf, List.mem_cons] at hl
+        rcases hl with rfl | hl
+        · simpa [plainI] using hd
+        · exact ih l hl
+      | imm o v => simp only [lowerOne, List.singleton_append, labelsOf] at hl; exact ih l hl
+      | ref o n r => simp only [lowerOne, List.singleton_append, labelsOf] at hl; exact ih l hl
+      | opr k => simp only [lowerOne, List.singleton_append, labelsOf] at hl; exact ih l hl
+      | data v => simp only [lowerOne, List.singleton_append, labelsOf] at hl; exact ih l hl
+    | fb k f o => simp only [lowerOne, List.singleton_append, labelsOf] at hl; exact ih l hl
+    | spValue => simp [plainI] at hd
+    | prologue n => simp [plainI] at hd
+    | epilogue n => simp [plainI] at hd
 
 end Hex.Xcmp
